@@ -14,7 +14,7 @@ IMPORTS = 'From EP Require Import C08.Model C08.Run.'
 Z = core.zlit
 FN = {1: 'insert-before($S, $a, $I)', 2: 'remove($S, $a)', 3: 'index-of($S, $a)', 4: 'reverse($S)', 5: 'subsequence($S, $x)',
       6: 'subsequence($S, $x, $y)', 7: 'zero-or-one($S)', 8: 'one-or-more($S)', 9: 'exactly-one($S)', 10: 'distinct-values($S)',
-      11: 'sum($S)', 12: 'min($S)', 13: 'max($S)', 14: 'count($S)', 15: 'head($S)', 16: 'tail($S)', 17: 'avg($S)'}
+      11: 'sum($S)', 12: 'min($S)', 13: 'max($S)', 14: 'count($S)', 15: 'head($S)', 16: 'tail($S)', 17: 'avg($S)', 18: 'empty($S)', 19: 'exists($S)'}
 TPL = {1: 'for $x in $S, $y in (1 to $x) return $x * 10 + $y',
        2: 'for $x in $S, $y in $T return $x * 100 + $y',
        3: 'some $x in $S, $y in (1 to $x) satisfies $y = $n',
@@ -78,7 +78,7 @@ def run(chk):
                 cases.append(('fn', 1, S, a, I, None, None))
             cases.append(('fn', 2, S, a, [], None, None))
             cases.append(('fn', 3, S, a, [], None, None))
-        for f in (4, 7, 8, 9, 10, 11, 12, 13, 14, 15, 16, 17):
+        for f in (4, 7, 8, 9, 10, 11, 12, 13, 14, 15, 16, 17, 18, 19):
             cases.append(('fn', f, S, 0, [], None, None))
         for x in positions:
             cases.append(('fn', 5, S, 0, [], x, None))
@@ -160,6 +160,57 @@ def run(chk):
             chk.nontrivial.add(repr(c))
         if i % 499 == 0:
             chk.sample({'case': repr(c)[:200], 'model': model[i]})
+    # ---- fn:string-join against the F&O definition (Model.string_join) and the fold the code runs (py_join)
+    ALPHA = ['', 'a', 'b', 'ab', ' ', ',', '-', 'x y', '\u00e9', '\U0001d11e', "'", '"', 'a,b', '\n']
+    jcases = [([], ','), (['a'], ','), (['a', 'b'], ''), (['', ''], '-'), (['', 'a', ''], ', '), (['a', 'b', 'c'], '\U0001d11e')]
+    for _ in range(150 if quick else 6000):
+        jcases.append(([rng.choice(ALPHA) for _ in range(rng.randint(0, 5))], rng.choice(ALPHA)))
+
+    def cps(t):
+        return '[' + '; '.join(str(ord(c)) for c in t) + ']'
+    jmodel = core.run_coq_cases('C08', IMPORTS, [f"run_join [{'; '.join(cps(t) for t in l)}] {cps(sep)}" for l, sep in jcases],
+                                chunk=500, tag='join', preamble='Open Scope Z_scope.') if model_ok else []
+    for (l, sep), mo in zip(jcases, jmodel):
+        for P in (XPath2Parser, XPath31Parser):
+            chk.evaluations += 1
+            chk.count('string-join')
+            desc = {'expr': 'string-join($S, $sep)', 'S': l, 'sep': sep, 'parser': P.__name__}
+            try:
+                got = select(None, 'string-join($S, $sep)', variables={'S': l, 'sep': sep}, item=1, parser=P)
+                alt = select(None, "string-join(for $x in $S return concat($x, ''), $sep)", variables={'S': l, 'sep': sep}, item=1, parser=P)
+                one = select(None, 'string-join($S)', variables={'S': l}, item=1, parser=P) if P is XPath31Parser else None
+            except Exception as e:
+                chk.violation('foreign-exception' if not isinstance(e, ElementPathError) else 'impl-vs-spec', desc, repr(e)[:200])
+                continue
+            mi, ms = [''.join(chr(c) for c in x) for x in mo]
+            if got != mi:
+                chk.corr_fail.append((desc, got, mi))
+            if got != ms or alt != ms:
+                chk.violation('impl-vs-spec', desc, {'impl': got, 'through a for expression': alt, 'spec': ms, 'model': mi})
+            if one is not None and one != ''.join(l):
+                chk.violation('impl-vs-spec', desc, {'string-join($S)': one, 'spec': ''.join(l)})
+        chk.nontrivial.add(repr(('join', l, sep)))
+    # ---- the standard equivalence subsequence(S, a, b) = S[round(a) le position() and position() lt round(a) + round(b)]
+    #      as two expressions of the implementation
+    for _ in range(150 if quick else 5000):
+        S = rseq(7)
+        x, y = rng.choice(positions), rng.choice(positions)
+        for P in (XPath2Parser, XPath31Parser):
+            chk.evaluations += 1
+            chk.count('equivalence:subsequence = positional filter')
+            var = {'S': S, 'x': x, 'y': y}
+            desc = {'S': S, 'x': repr(x), 'y': repr(y), 'parser': P.__name__}
+            try:
+                a = select(None, 'subsequence($S, $x, $y)', variables=var, item=1, parser=P)
+                b = select(None, '$S[round($x) le position() and position() lt round($x) + round($y)]', variables=var, item=1, parser=P)
+                a2 = select(None, 'subsequence($S, $x)', variables=var, item=1, parser=P)
+                b2 = select(None, '$S[round($x) le position()]', variables=var, item=1, parser=P)
+            except Exception as e:
+                chk.violation('foreign-exception' if not isinstance(e, ElementPathError) else 'impl-vs-spec', desc, repr(e)[:200])
+                continue
+            if a != b or a2 != b2:
+                chk.violation('impl-vs-spec', desc, {'subsequence/3': a, 'filter/3': b, 'subsequence/2': a2, 'filter/2': b2})
+        chk.nontrivial.add(repr(('subseq-equiv', S, repr(x), repr(y))))
     # ---- typed atomic values: distinct-values / index-of / min / max / sum / avg against C08/Typed.v
     from props import c08_typed
     c08_typed.run(chk, model_ok)
